@@ -93,6 +93,13 @@ def run(pid, tier):
     jobs = []
     for name, data in docs:
         jobs.append((name, data, "default", []))
+    # a trigger of each fix-capable rule inside nested structures (fixed family, all of it in both tiers): default set, and its rule alone
+    from .. import docgen
+    for name, text in docgen.fix_families():
+        jobs.append((name, text.encode("utf-8"), "default", []))
+        rule = name.split("/")[3]
+        if rule in fixers:
+            jobs.append((name, text.encode("utf-8"), "only:" + rule, [x for x in fixers if x != rule]))
     # each fix-capable default rule alone: on the documents of its own directory and on the extra families
     for rule in fixers:
         others = [x for x in fixers if x != rule]
